@@ -184,14 +184,19 @@ func (eng *Engine) typeTag(t types.Type) int {
 	eng.mu.Lock()
 	defer eng.mu.Unlock()
 	k := types.TypeString(t, nil)
-	if id, ok := eng.typeTags[k]; ok {
-		return id
-	}
-	id := len(eng.typeTags) + 1
-	eng.typeTags[k] = id
 	if eng.tagTypes == nil {
 		eng.tagTypes = map[int]types.Type{}
 	}
+	if id, ok := eng.typeTags[k]; ok {
+		// the id may have been handed out by name (typeis() in a contract) before the type itself was seen:
+		// complete the reverse map, or what typeOfTag answers would depend on which goroutine came first
+		if eng.tagTypes[id] == nil {
+			eng.tagTypes[id] = t
+		}
+		return id
+	}
+	id := eng.stableTag(k)
+	eng.typeTags[k] = id
 	eng.tagTypes[id] = t
 	return id
 }
@@ -209,9 +214,33 @@ func (eng *Engine) typeTagByName(name string) int {
 	if id, ok := eng.typeTags[name]; ok {
 		return id
 	}
-	id := len(eng.typeTags) + 1
+	id := eng.stableTag(name)
 	eng.typeTags[name] = id
 	return id
+}
+
+// stableTag derives the interface tag of a type from its name (FNV-1a, 30 bits, never 0), so that the generated
+// queries do not depend on the order in which concurrently verified functions first meet a type.  (eng.mu is held.)
+func (eng *Engine) stableTag(name string) int {
+	h := uint32(2166136261)
+	for i := 0; i < len(name); i++ {
+		h ^= uint32(name[i])
+		h *= 16777619
+	}
+	id := int(h&0x3fffffff) | 1
+	for {
+		used := false
+		for _, v := range eng.typeTags {
+			if v == id {
+				used = true
+				break
+			}
+		}
+		if !used {
+			return id
+		}
+		id += 2
+	}
 }
 
 func (eng *Engine) strID(s string) int {
